@@ -17,9 +17,18 @@
    [loaded cast asis sm pool] is the engine state holding the table of [sm] and the solution pool [pool].
 
    Since b0400cb (CellString returns the cell's text verbatim) and 43fcffa (POST /solutions clears the pool) the
-   three clauses hold at FULL strength: no stability hypothesis on the encodings, any earlier engine history. *)
+   three clauses hold at FULL strength: no stability hypothesis on the encodings, any earlier engine history.
+
+   The ACTIONS behind the texts (SummaryActions.v, on C09's transcription of BooleanArchive / ModelCompressor):
+   [pool_solution_flags ref e] are the activation flags of the model SolutionPool.AddSolution decodes from the text
+   [e] (what GET /solutions/<label> serves), [patch_encoding fmt st cur e] is PATCH /model {Encoding: e} on an engine
+   whose model has the flags [cur]: the new flags, the model's own re-encoded Encoding attribute and the
+   ParetoFrontMember verdict reached on THAT text.  C13_lookup_explorer_row_actions and
+   C13_patch_explorer_row_is_front_member state clauses 2 and 3 down to the flags for summaries written by the
+   compressor of a model with n actions, for EVERY n >= 1 — there is no hypothesis on n relative to the 64-bit words
+   of the encoding (n = 63, 64, 65, 128 are the Examples at the end). *)
 From Coq Require Import List String Ascii QArith Bool Arith.
-From Crem Require Import Base.Res CsvTable GoCast GoCastProofs SummaryRoundTrip SummaryProofs.
+From Crem Require Import Base.Res CsvTable GoCast GoCastProofs SummaryRoundTrip SummaryProofs SummaryActions SummaryActionsProofs.
 From Crem Require BoolArchive BoolArchiveProofs.
 Import ListNotations.
 Local Open Scope string_scope.
@@ -112,6 +121,51 @@ Theorem C13_round_trip_explorer_written : forall n cast fmt asis sm st r, cast_a
     get_solution fmt st' (r_label r) = Ok (Decoded (r_enc r) (r_note r), st'').
 Proof. exact c13_round_trip_explorer. Qed.
 
+(* ---- clauses 2 and 3 down to the ACTIVE ACTIONS, for every action count n >= 1 ---- *)
+(* [written bs] is the text Compress(model).Encoding() writes for a model whose activation flags are [bs] *)
+Theorem C13_written_is_the_compressors_text : forall bs,
+  ActionCodec.encoding_of bs = Ok (written bs).
+Proof. exact written_is_encoding_of. Qed.
+
+(* the pooled model decoded from a written text has exactly the flags it was written from, whatever the reference
+   model held (any model with as many actions) *)
+Theorem C13_pooled_model_has_the_encoded_actions : forall bs ref, 1 <= List.length bs ->
+  List.length ref = List.length bs -> pool_solution_flags ref (written bs) = Ok bs.
+Proof. exact pool_flags_written. Qed.
+
+(* POST then GET by label from ANY engine state: the row's own text and note come back, and the model the answer
+   is built from has exactly the active actions the row's text was written from *)
+Theorem C13_lookup_explorer_row_actions : forall n cast fmt asis sm st r ref, cast_agrees cast -> 1 <= n ->
+  wf_summary_shape asis sm = true -> explorer_encoded n sm -> In r (tl sm) -> List.length ref = n ->
+  exists st' st'' bs,
+    post_solutions (BoolArchive.nwords n) cast fmt asis st (CsvRecords (marshal_records (map fst asis) sm)) = Ok (S200, st') /\
+    get_solution fmt st' (r_label r) = Ok (Decoded (r_enc r) (r_note r), st'') /\
+    List.length bs = n /\ r_enc r = written bs /\ pool_solution_flags ref (r_enc r) = Ok bs.
+Proof. exact c13_lookup_explorer_row_actions. Qed.
+
+(* PATCH /model with the text of a non-as-is row, whatever the engine's model held: the model gets the row's
+   actions, re-encodes to the row's very text, and is marked as a front member *)
+Theorem C13_patch_explorer_row_is_front_member : forall n cast fmt asis sm pool r cur, cast_agrees cast -> 1 <= n ->
+  wf_summary_shape asis sm = true -> explorer_encoded n sm -> In r (tl sm) -> List.length cur = n ->
+  exists bs, List.length bs = n /\ r_enc r = written bs /\
+    patch_encoding fmt (loaded cast asis sm pool) cur (r_enc r) = Ok (Some (bs, r_enc r, Some true)).
+Proof. exact c13_patch_explorer_row. Qed.
+
+(* a text Decode refuses is answered 400 and changes nothing *)
+Theorem C13_patch_refused_text : forall s cur,
+  BoolArchiveProofs.decode_accepts (BoolArchive.nwords (List.length cur)) s = false -> patch_model cur s = Ok None.
+Proof. exact patch_model_rejected. Qed.
+
+(* on and around the word boundaries, executed: the text written for a model with n actions (every third action and
+   the LAST one active) is decoded by the pool into those flags and by PATCH into those flags and that text *)
+Example C13_example_word_boundaries :
+  forallb ex_boundary_ok [1; 2; 63; 64; 65; 127; 128; 129; 191; 192; 193] = true.
+Proof. vm_compute. reflexivity. Qed.
+
+Example C13_example_written_64_128 :
+  written (ex_flags 64) = "9249249249249249" /\ written (ex_flags 128) = "9249249249249249:C924924924924924".
+Proof. vm_compute. split; reflexivity. Qed.
+
 (* the clause is needed: the same summaries with ONE Actions text that does not decode are refused (400) *)
 Example C13_example_undecodable_refused :
   forallb ex_refused ["1:"; ":"; ""; "1:2"; "FFFFFFFFFFFFFFFFF"; "0:0"] = true.
@@ -165,3 +219,8 @@ Print Assumptions C13_decodable_is_decode_verdict.
 Print Assumptions C13_explorer_encodings_decodable.
 Print Assumptions C13_wf_splits.
 Print Assumptions C13_round_trip_explorer_written.
+Print Assumptions C13_written_is_the_compressors_text.
+Print Assumptions C13_pooled_model_has_the_encoded_actions.
+Print Assumptions C13_lookup_explorer_row_actions.
+Print Assumptions C13_patch_explorer_row_is_front_member.
+Print Assumptions C13_patch_refused_text.
